@@ -236,6 +236,17 @@ CLAIMED.update({
     },
 })
 
+CLAIMED.update({
+    "C23": {
+        "technique": "static analysis: path enumeration over MIR per const-generic instantiation (set/restore pairing, direction table) + origin tracking of interval bounds",
+        "level": ("Static: alter_fp_rounding_mode saves, sets, runs the operation and restores the FP rounding mode on every path, upward "
+                  "for UPPER=true and downward for UPPER=false; in the 7 functions that build an interval from directed bound "
+                  "computations the lower bound derives only from *_bounds::<false> and the upper only from *_bounds::<true> (all "
+                  "explored paths); get_inverse_op is the arithmetic inverse and an involution. A thin necessary condition for float "
+                  "bounds never being rounded inwards; the rest of interval soundness (propagation, casts, cardinality) is not decided."),
+    },
+})
+
 NA = {
     'C01': 'whole-pipeline value semantics over all queries x all table contents: functional verification, no clause visible in code shape beyond C03/C05/C47',
     'C08': 'ordering/permutation of runtime values (loser tree, cursors, heaps are value algorithms); no structural clause',
